@@ -432,8 +432,8 @@ pub fn honest_accepted<C: GenericConfig<D, F = F>>(
             rep.skip(&format!("unsat:{s}"));
             return None;
         }
-        BuildOutcome::Panicked(_) => {
-            rep.skip("base:build_panicked (reported by C01)");
+        BuildOutcome::Panicked(e) => {
+            rep.skip(&format!("base:build_panicked: {}", e.chars().take(70).collect::<String>()));
             return None;
         }
     };
